@@ -144,6 +144,12 @@ def install(world, cfg) -> None:
                 continue
             st["saved"].append((mod, n, cur))
             setattr(mod, n, sim_random if n == "random" else sim_seed)
+    # tuning knob (DESIGN 3.1): chosen at run start, never changed mid-run; the
+    # run lives in its own forked child, so nothing leaks into the next one
+    if cfg.get("prob_threshold") is not None:
+        import lightworks as _lw  # noqa: PLC0415
+        st["saved_threshold"] = _lw.settings.sampler_probability_threshold
+        _lw.settings.sampler_probability_threshold = cfg["prob_threshold"]
     # the run's own initial stream state
     real_seed(cfg.get("stream_seed", 0))
     np.random.seed(cfg.get("stream_seed", 0) % (2**32))
@@ -165,6 +171,9 @@ _MISSING = object()
 
 def remove(world) -> None:
     st = world.extra.get("seams", {})
+    if "saved_threshold" in st:
+        import lightworks as _lw  # noqa: PLC0415
+        _lw.settings.sampler_probability_threshold = st.pop("saved_threshold")
     for mod, n, old in reversed(st.get("saved", [])):
         if old is _MISSING:
             mod.__dict__.pop(n, None)
